@@ -77,3 +77,12 @@ SPEC("pane.converters", "ScalarConverter.collect_errors",
 
 SPEC("pane.converters", "ScalarConverter.into_data",
      ensures=[(lambda self, val, result: result == call(self._into_data_f, val), ["C05"], "ser")])
+
+# ---------------------------------------------------------------------------------------------
+# pure string helpers used only to build `expected` texts: assumed total (strings are not interpreted here)
+SPEC("pane.util", "list_phrase", trusted=True, total=True, result_kind="str",
+     note="assumed: total, pure, returns a str (string formatting helper)")
+SPEC("pane.util", "pluralize", trusted=True, total=True, result_kind="str",
+     note="assumed: total, pure, returns a str (string formatting helper)")
+SPEC("pane.util", "remove_article", trusted=True, total=True, result_kind="str",
+     note="assumed: total, pure, returns a str (string formatting helper)")
